@@ -16,6 +16,7 @@ LEVEL_TEXT = ("Branch↔outcome and dominance rules on the MIR: check_globals ru
               "interior mutability, defaults go into the private nested layer.")
 LEVEL_NOTE = ("Not decided: the outcomes over the full declaration × supply product as observed behaviour.")
 LEVEL_TEXT += (" (E5.file) every `global` declaration is appended to the file's table, which is never assigned or shrunk.")
+LEVEL_TEXT += (' Every successfully parsed `global` (and stanza, `inherit`) is recorded in the file: no guard can drop a repeated declaration before the checker sees it.')
 
 # the element of a forward iteration over self.globals: `for g in &self.globals` or `self.globals.iter().try_for_each(|g| …)`
 ITEM = r"\(Iterator::next\(&(?:IntoIterator::into_iter\(&\*arg:self\.globals\)|slice::iter\(&\*Deref::deref\(&\*arg:self\.globals\)\))\) as Some\)\.0"
